@@ -195,6 +195,7 @@ pub fn digest(files: &std::collections::HashMap<&'static str, String>) -> Value 
   let mut items = vec![];
   let mut imports: BTreeMap<String, BTreeSet<String>> = BTreeMap::new();
   let mut mentions: BTreeMap<String, BTreeSet<String>> = BTreeMap::new();
+  let mut const_mentions: BTreeMap<String, BTreeSet<String>> = BTreeMap::new();
   let mut parse_errors = vec![];
   let mut impls: Vec<(String, String, String)> = vec![]; // (file, trait, self type)
   let mut hdr_opt: Vec<(String, String)> = vec![]; // (header struct, member read as Option by the HeaderMap conversion)
@@ -206,8 +207,17 @@ pub fn digest(files: &std::collections::HashMap<&'static str, String>) -> Value 
       parse_errors.push(format!("{fname}: {e}"));
       continue;
     }
+    let cms = const_mentions.entry((*fname).to_string()).or_default();
+    for m in strs(&f["mentions"]) {
+      if let Some(c) = m.strip_prefix("const:") {
+        cms.insert(c.to_string());
+      }
+    }
     let ms = mentions.entry((*fname).to_string()).or_default();
     for m in strs(&f["mentions"]) {
+      if m.starts_with("const:") {
+        continue;
+      }
       // single-segment type paths, and the head of `Type::assoc` expression / constructor paths
       let m2 = m.strip_prefix("expr:").or_else(|| m.strip_prefix("ctor:")).unwrap_or(&m);
       let head = m2.split("::").next().unwrap_or("");
@@ -386,7 +396,7 @@ pub fn digest(files: &std::collections::HashMap<&'static str, String>) -> Value 
       it["helperCtors"] = json!(helper_ctors.iter().filter(|(e, _)| *e == n).map(|(_, v)| v.clone()).collect::<Vec<_>>());
     }
   }
-  json!({"items": items, "imports": imports, "mentions": mentions, "parse_errors": parse_errors})
+  json!({"items": items, "imports": imports, "mentions": mentions, "const_mentions": const_mentions, "parse_errors": parse_errors})
 }
 
 pub fn eval(op: &str, input: &mut Value) -> OpResult {
